@@ -131,17 +131,17 @@ add('C01',
 
 # rules added after the first round of seeded changes (see DESIGN.md section 10)
 ADDENDA = {
-    'C01': ('linear-use / template-multiplicity analysis of user expressions (DUP-EVAL), source tracing of store-position placeholders (NEW-BINDING), state-frame requirement on block visitors, order constraint for code parked in annotations (O6); imported necessary conditions of C03 C05 C06 C07 C08 C09 C11 C13 C14',
+    'C01': ('linear-use / template-multiplicity analysis of user expressions (DUP-EVAL), source tracing of store-position placeholders (NEW-BINDING), state-frame requirement on block visitors, order constraints for code parked in annotations (O6) and for stale analysis annotations (O7), abstract evaluation of the BoolOp / Compare folds on symbolic operands (FOLD), stale-child taint (STALE), presence-based annotation copy (ORIG-DEFS), traversal of the variable pass (LD-TRAV), standard-library name resolution (STDLIB), state-frame pairing (FRAME); imported necessary conditions of C03 C05 C06 C07 C08 C09 C11 C13 C14',
             ' A user expression reaches the generated code at most once on every handler path and a repeated placeholder only receives plain names; templates assign only to fresh symbols or to what the user statement binds; every block is visited inside a fresh frame of the pass state.'),
     'C02': ('imported rules: activity traversal/order (C08), getter/setter and support-set rules (C03), closure liveness and value-type state (C07)', ''),
     'C03': ('alias analysis of module-level mutable objects (SHARED-MUT, with positive-control fixture); abstract evaluation of QN.support_set as a structural fold (QN-SUPPORT)',
             ' Directive tables and option nodes are per loop (no module-level mutable object is mutated through an alias); the support of a composite is the union of the supports of its parts.'),
-    'C04': ('order constraint O6 for code parked in annotations; imported cache-key / option equality rules (C10, C20)', ''),
-    'C05': ('reachability order of statement-list visits relative to the lexical-scope window (CFG-SCOPE); per-section builder state keyed by the section (CFG-KEYED)',
+    'C04': ('order constraint O6 for code parked in annotations; FOLD and STALE (see C01); exact predicates for the documented native-call exceptions; imported cache-key / option equality rules (C10, C20)', ''),
+    'C05': ('reachability order of statement-list visits relative to the lexical-scope window (CFG-SCOPE); per-section builder state keyed by the section (CFG-KEYED); path analysis of jump recording and wiring in the builder (CFG-WIRE)',
             ' Loop bodies and try body/else are visited while their statement is on the lexical scope stack, loop else and finally bodies after it has left; nestable sections keep their state in tables keyed by the section.'),
     'C06': ('value-type check of the lattice state class; imported CFG rules (C05) and activity traversal / parameter rules (C08)', ''),
     'C07': ('value-type check of the reaching-function-definitions state; imported CFG rules (C05) and activity traversal / order / finalisation rules (C08)', ''),
-    'C08': ('must-traverse analysis of every ActivityAnalyzer / QnResolver handler over every field that can hold a Name (ACT-TRAV, constant-flag and literal-iteration aware); dominance-based visit order (ACT-ORDER)',
+    'C08': ('must-traverse analysis of every ActivityAnalyzer / QnResolver handler over every field that can hold a Name (ACT-TRAV, constant-flag and literal-iteration aware); dominance-based visit order (ACT-ORDER); per-name recording of global/nonlocal lists; state-frame pairing (ACT-FRAME)',
             ' Every handler of the activity analysis and of the qualified-name resolver visits every symbol-bearing field on every path; comprehension iterables are visited before their targets are registered.'),
     'C09': ('imported activity traversal rule restricted to parameter fields (C08)', ''),
     'C10': ('guard analysis of every caching call of the unconverted path: remembered decisions depend on (function, options) only; imported option equality rules (C20)', ''),
